@@ -334,7 +334,7 @@ func runSIV(w *vt.Writer, full bool) {
 			}
 			reps := 2
 			if full {
-				reps = 4
+				reps = 3
 			} else if route == "perkey" {
 				reps = 1
 			}
